@@ -95,9 +95,18 @@ def access_summary(P, fi: FuncInfo):
         return NotImplemented
     eng = Engine(P, on_call=on_call, max_paths=128)
     ps = eng.paths(fi, {fi.params[0]: ROW})
+    consts = set()
     for p in ps:
         if p.outcome == 'return':
             visit(p.value)
+            # values the accessor makes up itself instead of reading them: NULL, literals, empty containers
+            v = p.value
+            if v is None or isinstance(v, (bool, int, str)):
+                consts.add(repr(v))
+            elif isinstance(v, SList) and not v.items and not v.tail and v.origin is None and not v.opaque_tail:
+                consts.add({'dict': '{}', 'set': 'set()', 'tuple': '()'}.get(v.kind, '[]'))
+            elif isinstance(v, T) and v.op == 'tuple' and not v.args:
+                consts.add('()')
         for t, _ in p.decisions:
             visit(t)
         for e in p.events:
@@ -113,7 +122,7 @@ def access_summary(P, fi: FuncInfo):
     for r in recv_terms:
         visit(r)
     maximal = sorted(p for p in paths if not any(q != p and q.startswith(p + '.') for q in paths))
-    return {'paths': maximal, 'calls': sorted(calls), 'keys': sorted(keys)}
+    return {'paths': maximal, 'calls': sorted(calls), 'keys': sorted(keys), 'consts': sorted(consts)}
 
 
 # ----------------------------------------------------------------------
